@@ -118,7 +118,7 @@ def run_taper(case, ctx):
 
 
 COLUMNS = ["idle", "X", "Y", "RXpi", "RX3pi", "RXmpi", "RZ", "Z", "Z_X", "X_X", "RZ_RXmpi", "X_Z", "H", "RY", "RX_small", "three", "RYpi", "RZ_RZ", "X_RZ",
-           "RX_X", "Z_RXpi"]
+           "RX_X", "Z_RXpi", "RXt_X", "RXt_RXpi", "RX0_X", "RX2pi_X", "X_RXt", "RZ_X", "RY_X", "RXt_Z", "Y_X", "H_X"]
 
 
 def column_gates(pr, kind, q):
@@ -132,6 +132,11 @@ def column_gates(pr, kind, q):
         "H": [("H", [q], None, "")], "RY": [("RY", [q], None, t)], "RX_small": [("RX", [q], None, 0.4)],
         "three": [("X", [q], None, ""), ("Z", [q], None, ""), ("X", [q], None, "")], "RYpi": [("RY", [q], None, pi)],
         "RZ_RZ": [("RZ", [q], None, t), ("RZ", [q], None, 0.3)], "X_RZ": [("X", [q], None, ""), ("RZ", [q], None, t)],
+        "RXt_X": [("RX", [q], None, t), ("X", [q], None, "")], "RXt_RXpi": [("RX", [q], None, t), ("RX", [q], None, pi)],
+        "RX0_X": [("RX", [q], None, 0.0), ("X", [q], None, "")], "RX2pi_X": [("RX", [q], None, 2 * pi), ("X", [q], None, "")],
+        "X_RXt": [("X", [q], None, ""), ("RX", [q], None, t)], "RZ_X": [("RZ", [q], None, t), ("X", [q], None, "")],
+        "RY_X": [("RY", [q], None, t), ("X", [q], None, "")], "RXt_Z": [("RX", [q], None, t), ("Z", [q], None, "")],
+        "Y_X": [("Y", [q], None, ""), ("X", [q], None, "")], "H_X": [("H", [q], None, ""), ("X", [q], None, "")],
         "RX_X": [("RX", [q], None, pi), ("X", [q], None, "")], "Z_RXpi": [("Z", [q], None, ""), ("RX", [q], None, pi + pr.choice([0, 1e-7, -1e-7]))],
     }[kind]
 
